@@ -20,6 +20,7 @@ ID = 'C06'
 BUDGET = {'quick': 8000, 'thorough': 500000}
 WALL = {'quick': 100, 'thorough': 1500}
 CHUNK = 40
+SELFTEST = {'quick': 14, 'thorough': 200}
 RULE = ('case kinds (swarm-weighted): layout = LayoutHandler/LayoutSwapper construction + all-pairs '
         'transposes with layout names whose hash is salted per rank, under a systematic sweep of all '
         'P! consistent arrival orders for P <= 3 (quick) / 4 (thorough) and straggler/eager/bursty '
